@@ -66,12 +66,49 @@ def plan(tier, seed):
             for F in (0.0, 0.3):
                 for st in (0, 1):
                     jobs.append(("compound", H, P, fname, F, st, seed, math.factorial(P) * H**P * math.comb(H + P - 1, P)))
+    for H, P in ((3, 2), (4, 3), (4, 4)):
+        jobs.append(("reuse", H, P, seed, 5000))
     jobs.sort(key=lambda j: -j[-1])
     return jobs
 
 
 def run_job(job):
-    return {"slot": job_slot, "compound": job_compound}[job[0]](job)
+    return {"slot": job_slot, "compound": job_compound, "reuse": job_reuse}[job[0]](job)
+
+
+def job_reuse(job):
+    """a sampler object fitted to sample A and then to sample B must target B's posterior: same trace as a fresh object, B's own likelihoods"""
+    from mchap.calling.classes import CallingMCMC
+
+    _, H, P, seed, _ = job
+    r = Result()
+    payload = {"kind": "job", "job": job}
+    for fname in ("none", "skew"):
+        A = CallInstance(H, P, fname, 0.1, seed)
+        B = CallInstance(H, P, fname, 0.1, seed + 1, read_variant=1)
+        for stype in ("Gibbs", "Metropolis-Hastings"):
+            kw = dict(ploidy=P, haplotypes=A.haps, frequencies=A.farr, inbreeding=0.1, steps=100, chains=2, random_seed=3, step_type=stype)
+            fresh = CallingMCMC(**kw).fit(B.R, B.C)
+            model = CallingMCMC(**kw)
+            model.fit(A.R, A.C)
+            again = model.fit(B.R, B.C)
+            r.evaluations += 1
+            r.nontrivial += 1
+            r.states += 1
+            r.transitions += 2
+            tag = "H=%d|P=%d|freq=%s|%s" % (H, P, fname, stype)
+            if not np.array_equal(fresh.genotypes, again.genotypes):
+                r.violation("reuse-trace|" + tag, "fit(B) after fit(A) on one CallingMCMC object differs from fit(B) on a fresh object", payload)
+            for c in range(again.genotypes.shape[0]):
+                for i in range(again.genotypes.shape[1]):
+                    want = B.llk(tuple(int(x) for x in again.genotypes[c, i]))
+                    r.traces += 1
+                    if abs(again.llks[c, i] - want) > 1e-9 * max(1, abs(want)):
+                        r.violation("reuse-llk|" + tag, "after refitting, step %d carries llk %.12g; sample B's reads give %.12g" % (i, again.llks[c, i], want), payload)
+                        break
+            r.outcome((tag, again.genotypes[0, -1].tolist()))
+    r.sample({"model_reuse": "CallingMCMC fit(A) then fit(B)", "H": H, "P": P})
+    return r
 
 
 def job_slot(job):
